@@ -1014,8 +1014,10 @@ def py_reorder(files, rng, rel):
 PY_BUILTINS = set(dir(__import__("builtins")))
 
 
-def py_move_to_file(files, rng, rel, protected=(), injected=("out", "sink"), helper=None):
-    """Move one self-contained top-level function into a new module and import it where the def statement stood."""
+def py_move_to_file(files, rng, rel, protected=(), injected=("out", "sink"), helper=None, only=None):
+    """Move one self-contained top-level function into a new module and import it where the def statement stood.
+    `rel` may be ANY file of the project: when other files already import the function from `rel`, the file becomes a
+    re-exporting intermediate module (`main: from lib import f`, `lib: from core import f`). `only`: move this function."""
     text = files[rel]
     try:
         b = py_scopes(text)
@@ -1060,7 +1062,7 @@ def py_move_to_file(files, rng, rel, protected=(), injected=("out", "sink"), hel
             ok = False
         if st.lineno in bad or (st.end_lineno + 1) in bad:
             ok = False
-        if ok:
+        if ok and (only is None or st.name == only):
             cands.append(st)
     if not cands:
         return None
@@ -1095,8 +1097,10 @@ def py_move_to_file(files, rng, rel, protected=(), injected=("out", "sink"), hel
         else:
             lm[(rel, i)] = (rel, i - (e - s + 1) + 1)
     alias = {(hrel, 1, st.name): [(rel, s, st.name)]}
+    pat = re.compile(r"^\s*(from\s+" + re.escape(os.path.basename(rel)[:-3]) + r"\s+import\b|import\s+" + re.escape(os.path.basename(rel)[:-3]) + r"\b)", re.M)
+    importers = sorted(r for r, t in files.items() if r != rel and pat.search(t) and re.search(r"\b" + re.escape(st.name) + r"\b", t))
     return Step("move-to-file", out, lm, decl_alias=alias,
-                detail={"file": rel, "function": st.name, "helper": hrel, "lines": [s, e]}, target=rel)
+                detail={"file": rel, "function": st.name, "helper": hrel, "lines": [s, e], "imported_by": importers}, target=rel)
 
 
 # =====================================================================================================
@@ -1254,6 +1258,9 @@ def ts_noop(lang, files, rng, rel, repo):
     for i in order[:25]:
         ref = lines[i - 1]
         ind = ref[:len(ref) - len(ref.lstrip())]
+        prev_code = next((lines[k].strip() for k in range(i - 2, -1, -1) if lines[k].strip()), "")
+        if re.match(r"(return|throw|break|continue|goto|exit|die)\b", prev_code):
+            continue            # a statement after a jump is unreachable: javac rejects it, elsewhere it is dead code
         new, lm, ins = insert_lines(text, {i: [ind + noop]})
         toks2, err2 = ts_tokens(lang, new, repo)
         if err2:
@@ -1365,21 +1372,26 @@ def ts_rename(lang, files, rng, rel, repo, names, kind):
     return None
 
 
-def ts_reorder(lang, files, rng, rel, repo, groups):
+def ts_reorder(lang, files, rng, rel, repo, groups, reverse=False, hierarchy=()):
     """groups: [[(first line, last line), ...], ...] blocks of independent definitions (declared by the program's
-    author for the UNEDITED text)."""
+    author for the UNEDITED text). reverse: the blocks of the first group in reverse order. hierarchy: [(first line of a
+    subclass block, first line of its superclass block)] — only used to REPORT whether a subclass now precedes its
+    superclass (the author declares the group order-independent, e.g. top-level Java classes)."""
     text = files[rel]
     groups = [g for g in groups if len(g) >= 2]
     if not groups:
         return None
-    g = sorted(rng.choice(groups))
+    g = sorted(groups[0] if reverse else rng.choice(groups))
     perm = list(range(len(g)))
-    for _ in range(10):
-        rng.shuffle(perm)
-        if perm != sorted(perm):
-            break
+    if reverse:
+        perm.reverse()
     else:
-        return None
+        for _ in range(10):
+            rng.shuffle(perm)
+            if perm != sorted(perm):
+                break
+        else:
+            return None
     new, lm = permute_blocks(text, g, perm)
     toks, err = ts_tokens(lang, text, repo)
     toks2, err2 = ts_tokens(lang, new, repo)
@@ -1389,17 +1401,25 @@ def ts_reorder(lang, files, rng, rel, repo, groups):
         return None
     out = dict(files)
     out[rel] = new
-    return Step("reorder-defs", out, _full_map(files, rel, lm), detail={"file": rel, "blocks": g, "perm": perm}, target=rel)
+    sub_first = any(lm.get(c, 0) < lm.get(p_, 0) for (c, p_) in hierarchy if c in lm and p_ in lm)
+    return Step("reorder-defs", out, _full_map(files, rel, lm),
+                detail={"file": rel, "blocks": g, "perm": perm, "subclass_before_superclass": bool(sub_first)}, target=rel)
 
 
-def js_move_to_file(files, rng, rel, repo, groups, protected=()):
+def js_move_to_file(files, rng, rel, repo, groups, protected=(), helper=None):
     """JavaScript: move one self-contained top-level function declaration (author-declared block of the UNEDITED text)
-    into a new ES module and import it where the declaration stood."""
+    into a new ES module and import it where the declaration stood. groups=None: `rel` is a module that consists of one
+    function declaration followed by its `export { f };` line (what this editor itself produces) — the function moves on
+    and the module re-exports it."""
     text = files[rel]
     toks, err = ts_tokens("javascript", text, repo)
     if err:
         return None
     lines = split_lines(text)
+    if groups is None:
+        if len(lines) < 2 or not re.match(r"export \{ [A-Za-z_$][A-Za-z_0-9$]* \};$", lines[-1]) or not lines[0].startswith("function "):
+            return None
+        groups = [[(1, len(lines) - 1)]]
     blocks = [b for g in groups for b in g]
     cands = []
     for (s, e) in blocks:
@@ -1419,11 +1439,14 @@ def js_move_to_file(files, rng, rel, repo, groups, protected=()):
     if not cands:
         return None
     s, e, name = rng.choice(cands)
-    helper = fresh_name(files, rng, rng.choice(["helper_mod", "zz_util", "aa_lib"]))
+    if helper is None:
+        helper = fresh_name(files, rng, rng.choice(["helper_mod", "zz_util", "aa_lib"]))
     if helper is None:
         return None
     d = os.path.dirname(rel)
     hrel = os.path.join(d, helper + ".js") if d else helper + ".js"
+    if hrel in files:
+        return None
     new_main = lines[:s - 1] + [f'import {{ {name} }} from "./{helper}.js";'] + lines[e:]
     moved = lines[s - 1:e] + [f"export {{ {name} }};"]
     out = dict(files)
@@ -1441,4 +1464,8 @@ def js_move_to_file(files, rng, rel, repo, groups, protected=()):
         else:
             lm[(rel, i)] = (rel, i - (e - s + 1) + 1)
     alias = {(hrel, 1, name): [(rel, s, name)]}
-    return Step("move-to-file", out, lm, decl_alias=alias, detail={"file": rel, "function": name, "helper": hrel, "lines": [s, e]}, target=rel)
+    base = os.path.basename(rel)
+    importers = sorted(r for r, t in files.items() if r != rel and re.search(r"from \"\./" + re.escape(base) + r"\"", t)
+                       and re.search(r"(?<![A-Za-z0-9_$])" + re.escape(name) + r"(?![A-Za-z0-9_$])", t))
+    return Step("move-to-file", out, lm, decl_alias=alias,
+                detail={"file": rel, "function": name, "helper": hrel, "lines": [s, e], "imported_by": importers}, target=rel)
